@@ -427,6 +427,11 @@ static void overlap_case(vrng *r)
      * copy order can preserve that, so it is not a meaningful request and is not generated. */
     long delta = (long)vrn(r, (uint32_t)len);
     if (vrn(r, 6) == 0) delta += (long)len + (long)vrn(r, 40);
+    if (kind == 2 && vrn(r, 2) && (size_t)pos >= 1) {
+        /* write_raw has no prefix, so a source BELOW the destination (src < dst < src+len: shifting bytes up) is meaningful too */
+        long back = 1 + (long)vrn(r, (uint32_t)(len < pos ? len : pos));
+        delta = -back;
+    }
     long srcoff = (long)dstpay + delta;
     size_t cap = (size_t)srcoff + len > dstpay + len ? (size_t)srcoff + len : dstpay + len;
     cap += 1;
